@@ -726,6 +726,14 @@ _BTree_set(BTree *self, PyObject *keyarg, PyObject *value,
 
     KEY_TYPE key;
     int copied = 1;
+#ifdef KEY_TYPE_IS_PYOBJECT
+    /* A node key that is replaced or removed is released only when the
+     * outermost tree operation has finished (release_after_tree_op):
+     * releasing it may run arbitrary code (a finalizer, a weakref callback)
+     * that looks at this tree.
+     */
+    PyObject *dead_key = NULL;
+#endif
 
     COPY_KEY_FROM_ARG(key, keyarg, copied);
     if (!copied)
@@ -736,6 +744,7 @@ _BTree_set(BTree *self, PyObject *keyarg, PyObject *value,
 #endif
 
     PER_USE_OR_RETURN(self, -1);
+    TREE_OP_ENTER();
 
     self_was_empty = self->len == 0;
     if (self_was_empty)
@@ -807,12 +816,12 @@ _BTree_set(BTree *self, PyObject *keyarg, PyObject *value,
         assert(status == 1);    /* can be 2 only on deletes */
         if (SameType_Check(self, d->child)) {
             long max_size = _max_internal_size(self);
-            if (max_size < 0) return -1;
+            if (max_size < 0) goto Error;
             toobig = childlength > max_size;
         }
         else {
             long max_size = _max_leaf_size(self);
-            if (max_size < 0) return -1;
+            if (max_size < 0) goto Error;
             toobig = childlength > max_size;
         }
         if (toobig) {
@@ -895,7 +904,9 @@ _BTree_set(BTree *self, PyObject *keyarg, PyObject *value,
 
             UNLESS(PER_USE(bucket))
                 goto Error;
-            DECREF_KEY(d->key);
+#ifdef KEY_TYPE_IS_PYOBJECT
+            dead_key = d->key;
+#endif
             COPY_KEY(d->key, bucket->keys[0]);
             INCREF_KEY(d->key);
             PER_UNUSE(bucket);
@@ -954,7 +965,7 @@ _BTree_set(BTree *self, PyObject *keyarg, PyObject *value,
 #ifdef KEY_TYPE_IS_PYOBJECT
     if (min)
     {
-        DECREF_KEY(d->key);
+        dead_key = d->key;
     }
     else if (self->len > 1)
     {
@@ -963,7 +974,7 @@ _BTree_set(BTree *self, PyObject *keyarg, PyObject *value,
         * and hence never to be referenced again (the key in slot 0 is
         * trash).
         */
-        DECREF_KEY((d+1)->key);
+        dead_key = (d+1)->key;
     }
     /* Else min==0 and len==1:  we're emptying the BTree entirely, and
     * there is no key in need of decrefing.
@@ -983,6 +994,10 @@ Done:
     }
 #endif
     PER_UNUSE(self);
+#ifdef KEY_TYPE_IS_PYOBJECT
+    release_after_tree_op(dead_key);
+#endif
+    tree_op_leave();
     return status;
 
 Error:
@@ -1009,6 +1024,10 @@ Error:
     }
 #endif
     PER_UNUSE(self);
+#ifdef KEY_TYPE_IS_PYOBJECT
+    release_after_tree_op(dead_key);
+#endif
+    tree_op_leave();
     return -1;
 }
 
